@@ -8,13 +8,13 @@ import random
 from . import common
 from .common import MachineryError
 
-ALL_ACTS = ["set", "del", "pop", "get", "clear", "update", "copy", "deepcopy", "index", "slice", "ocopy", "sortkey", "sortidx",
+ALL_ACTS = ["set", "del", "pop", "get", "clear", "update", "copy", "deepcopy", "index", "slice", "ocopy", "to", "sortkey", "sortidx",
             "iop", "eq", "dsset", "dsdel", "dspop", "dsget", "dsmeta", "dsclear", "dsupdate", "dscopy", "dsdeepcopy"]
 FOCUS = {
     "dict": ["set", "del", "pop", "get", "clear", "update", "copy", "eq", "dsset", "dsdel", "dspop", "dsget", "dsmeta", "dsclear",
              "dsupdate", "dscopy", "dsdeepcopy"],
     "rows": ["set", "del", "pop", "update", "index", "sortkey", "sortidx", "clear"],
-    "alias": ["set", "copy", "deepcopy", "slice", "ocopy", "iop", "dsset", "dscopy"],
+    "alias": ["set", "copy", "deepcopy", "slice", "ocopy", "to", "iop", "dsset", "dscopy"],
 }
 IDX_ALL = ["i0", "im1", "iout", "s02", "s_2", "srev", "s1_", "mask", "maskArr", "maskBad", "maskNone", "ia", "iaArr", "perm", "faArr", "vecIdx"]
 INVARIANTS = ["Aligned", "KeysConsistent", "HeapOk", "OneRowSelection"]
@@ -307,7 +307,7 @@ def _run(rep, tier, seed, focus, acts_for_sim):
         del recs
     if focus == "alias":
         # conversion - in-place update - conversion: histories of in-place operators alone, on operands in m, cm (Array and Vector) and s
-        recs = tlc_emit(rep, "alias-iop-depth3", ["iop"], 3 if tier == "quick" else 4, ops=["add", "mul"], objs=[1, 5, 7, 2])
+        recs = tlc_emit(rep, "alias-iop-depth3", ["iop", "to"], 3 if tier == "quick" else 4, ops=["add", "mul"], objs=[1, 5, 7, 2])
         replay_records(rep, recs, focus, "alias-iop", seed=seed)
     # 2. all actions together, shallow (cross-feature interactions)
     recs = tlc_emit(rep, "all-bfs-depth2", ALL_ACTS, 2)
